@@ -96,6 +96,51 @@ int main(void)
 #else
     FOFF(USE_CS_FALLBACK)
 #endif
+    /* ---- (D)TLS <= 1.2 ECDHE curves: matrixCurveIdFlag[] read through curveIdToFlag, compiled-in curves in eccCurves[] order,
+       the library default curve, the groups psIsEcdheGroup recognises */
+    {
+        extern int32 curveIdToFlag(int32 id); extern uint32_t compiledInEcFlags(void);
+        printf("Definition c_curve_flags : list (N * N) := [");
+        { int first = 1; for (int id = 0; id < 65536; id++) { int32 f = curveIdToFlag(id); if (f) { printf("%s(%d, %u)", first ? "" : "; ", id, (unsigned) f); first = 0; } } }
+        printf("].\n");
+        N(IS_RECVD_EXT) NN("compiled_ec_flags", compiledInEcFlags())
+        unsigned char ids[64]; uint8_t l = sizeof ids; psGetEccCurveIdList(ids, &l);
+        printf("Definition c_ecc_curve_ids : list N := ["); for (int i = 0; i + 1 < l; i += 2) printf("%s%u", i ? "; " : "", (ids[i] << 8) | ids[i+1]); printf("].\n");
+        const psEccCurve_t *cv = NULL; getEccParamById(0, &cv); NN("default_curve", cv ? cv->curveId : 0)
+        printf("Definition c_ecdhe_groups : list N := ["); { int first = 1; for (unsigned id = 0; id < 65536; id++) if (psIsEcdheGroup((uint16_t) id)) { printf("%s%u", first ? "" : "; ", id); first = 0; } } printf("].\n");
+        NN("namedgroup_x25519", namedgroup_x25519)
+    }
+    /* ---- TLS 1.2 SignatureAndHashAlgorithm handling */
+    N(OID_MD2_RSA_SIG) N(OID_MD5_RSA_SIG) N(OID_SHA1_RSA_SIG) N(OID_SHA256_RSA_SIG) N(OID_SHA384_RSA_SIG) N(OID_SHA512_RSA_SIG)
+    N(OID_SHA1_ECDSA_SIG) N(OID_SHA256_ECDSA_SIG) N(OID_SHA384_ECDSA_SIG) N(OID_SHA512_ECDSA_SIG) N(OID_RSA_KEY_ALG) N(OID_ECDSA_KEY_ALG)
+    N(HASH_SIG_MD5_RSA_MASK) N(HASH_SIG_SHA1_RSA_MASK) N(HASH_SIG_SHA256_RSA_MASK) N(HASH_SIG_SHA384_RSA_MASK) N(HASH_SIG_SHA512_RSA_MASK)
+    N(HASH_SIG_SHA1_ECDSA_MASK) N(HASH_SIG_SHA256_ECDSA_MASK) N(HASH_SIG_SHA384_ECDSA_MASK) N(HASH_SIG_SHA512_ECDSA_MASK) N(HASH_SIG_RSA)
+    N(SSL_ALERT_DECRYPT_ERROR)
+    {
+        extern int32_t tlsSigAlgToMatrix(uint16_t alg); extern psResSize_t tlsSigAlgToHashLen(uint16_t alg); extern psBool_t tlsIsSupportedRsaSigAlg(int32_t alg);
+        printf("(* tlsSigAlgToMatrix / tlsSigAlgToHashLen / tlsIsSupportedRsaSigAlg over every 16-bit SignatureScheme *)\n");
+        printf("Definition c_tls_sigalg_oid : list (N * N) := ["); { int first = 1; for (unsigned a = 0; a < 65536; a++) { int32_t o = tlsSigAlgToMatrix((uint16_t) a); if (o >= 0) { printf("%s(%u, %d)", first ? "" : "; ", a, o); first = 0; } } } printf("].\n");
+        printf("Definition c_tls_sigalg_hashlen : list (N * N) := ["); { int first = 1; for (unsigned a = 0; a < 65536; a++) { int h = (int) tlsSigAlgToHashLen((uint16_t) a); if (h > 0) { printf("%s(%u, %d)", first ? "" : "; ", a, h); first = 0; } } } printf("].\n");
+        printf("Definition c_tls_rsa_sigalgs : list N := ["); { int first = 1; for (unsigned a = 0; a < 65536; a++) if (tlsIsSupportedRsaSigAlg((int32_t) a)) { printf("%s%u", first ? "" : "; ", a); first = 0; } } printf("].\n");
+        int oids[] = { OID_MD2_RSA_SIG, OID_MD5_RSA_SIG, OID_SHA1_RSA_SIG, OID_SHA256_RSA_SIG, OID_SHA384_RSA_SIG, OID_SHA512_RSA_SIG,
+                       OID_SHA1_ECDSA_SIG, OID_SHA256_ECDSA_SIG, OID_SHA384_ECDSA_SIG, OID_SHA512_ECDSA_SIG };
+        printf("Definition c_oid_hashlen : list (N * N) := ["); for (int i = 0; i < 10; i++) printf("%s(%d, %d)", i ? "; " : "", oids[i], (int) psSigAlgToHashLen(oids[i])); printf("].\n");
+    }
+#ifdef USE_SHA512
+    FON(USE_SHA512)
+#else
+    FOFF(USE_SHA512)
+#endif
+#ifdef USE_SHA384
+    FON(USE_SHA384)
+#else
+    FOFF(USE_SHA384)
+#endif
+#ifdef USE_SHA256
+    FON(USE_SHA256)
+#else
+    FOFF(USE_SHA256)
+#endif
     /* cipher suite table, in table order; the terminator (ident 0) is the last entry of supportedCiphers[] */
     {
         static ent_t e[65536]; int n = 0;
